@@ -714,7 +714,8 @@ def formula_grammar(table):
     element = element.setParseAction(convert_element)
 
     # Convert "count elements" to a pair
-    implicit_group = count+OneOrMore(element)
+    # Note: a space ends the group, so "3HO Fe" is 3(HO) + Fe, not 3(HOFe).
+    implicit_group = count+element+ZeroOrMore(~White()+element)
     def convert_implicit(string, location, tokens):
         """convert count followed by fragment"""
         #print "implicit", tokens
